@@ -3,6 +3,7 @@ mod clock;
 mod core;
 mod e1;
 mod e2;
+mod memeeprom;
 mod coe;
 mod eeprom;
 mod net;
